@@ -6,6 +6,9 @@
       arrays: `binaryBlockwise fn m a.phaseSync.blocks b.phaseSync.blocks`.
   (2) two more in-place operations end to end: `phase_sync(inplace=True)` denotes `Arr.phaseSync`,
       `multiply_diagonal(v, axis, inplace=True)` denotes `multiplyDiagonal`.
+  (4) `_map_blocks` (hence `squeeze`, `expand_dims`), in place and out of place, end to end: block dict
+      AND sign dict afterwards represent `Arr.mapBlocks` — the sign entries of stored blocks re-keyed, the
+      stale ones discarded (library repair 2f542e3) — with no hypothesis on the sign table.
   (3) the frame theorems at the level users observe: an out-of-place call of ANY operation of both
       tables (and any program of such calls) leaves the DENOTATION of every pre-existing array unchanged.
 -/
@@ -234,6 +237,130 @@ theorem multiply_diagonal_value (chargeOf : Key → Key) (axis : Nat)
 
 end muldiag
 
+/-! ## (4) `_map_blocks`, `squeeze`, `expand_dims` denote `Arr.mapBlocks` (sign table included) -/
+
+section mapvalue
+variable {R : Type} (enc : Sector → Key) (I : Nat → List (Blk R) → Blk R) (d : Blk R)
+
+/-- **`_map_blocks` (always in place), end to end on `Arr`**: `x` represents `A`; the kernel denotes
+    `fb`; `fk` is `fs` on the encoded sectors of the stored blocks.  Afterwards `x` REPRESENTS
+    `A.mapBlocks fs fb`: new block dict under the re-keyed sectors and — for a fermionic array — the
+    sign dict holding exactly the re-keyed entries of the stored blocks (stale entries are discarded,
+    as in the repaired library); index table, charge and labels untouched. -/
+theorem map_blocks_value (fs : Sector → Sector) (fb : Blk R → Blk R) (fk : Key → Key) (tag : Nat)
+    (hI : ∀ b, I tag [b] = fb b) {h : Heap} {x : ObjId} {a : ArrObj} {bd : Dict} {pd : Option Dict}
+    (wx : WFArr h x a bd pd) (okx : BlocksOK h bd) {A : Arr R} (rx : Rep enc I d h.bufs (cont a bd pd) A)
+    (hf : A.fermi = pd.isSome) {Ss : List Sector} (hinj : InjOn enc Ss) (hA : ∀ e ∈ A.blocks, e.1 ∈ Ss)
+    (hAs : ∀ e ∈ A.blocks, fs e.1 ∈ Ss) (hAk : ∀ e ∈ A.blocks, fk (enc e.1) = enc (fs e.1))
+    (hAp : ∀ e ∈ A.phases, e.1 ∈ Ss) :
+    ∃ c, ((Op.mapBlocks fk tag).run true h [x]).2 = [x] ∧
+      content ((Op.mapBlocks fk tag).run true h [x]).1 x = some c ∧
+      Rep enc I d ((Op.mapBlocks fk tag).run true h [x]).1.bufs c (A.mapBlocks fs fb) ∧
+      c.indices = a.indices ∧ c.charge = a.charge ∧ c.oddpos = a.oddpos := by
+  obtain ⟨h', a', b', p', run', w', e'⟩ := script_refines (S.mapBlocks fk tag) 0 .done (env := [x]) (by simp)
+    (by simpa [envGet] using wx)
+  have hrun : ((Op.mapBlocks fk tag).run true h [x]) = (h', [x]) := by
+    simp only [Op.run, Op.arity, Op.prog, List.take_succ_cons, List.take_zero]
+    rw [run']; rfl
+  have rep := mapBlocks_rep enc I d fs fb fk tag hI rx okx hf hinj hA hAs hAk hAp
+  rw [← e'] at rep
+  have hc := w'.content
+  simp only [envGet, List.getD_cons_zero] at hc
+  have e1 := congrArg Prod.fst e'
+  rw [mapBlocks_pure] at e1
+  simp only [cont] at e1
+  refine ⟨cont a' b' p', by rw [hrun], by rw [hrun]; exact hc, by rw [hrun]; exact rep, ?_, ?_, ?_⟩
+  · exact congrArg Content.indices e1
+  · exact congrArg Content.charge e1
+  · exact congrArg Content.oddpos e1
+
+
+/-- **`squeeze`, in place and out of place, end to end on `Arr`**: afterwards `x` (resp. the new object
+    `r`) REPRESENTS `A.mapBlocks fs fb` — which is what `Arr.squeeze` makes of blocks and sign table —
+    under the index table `fi a.indices`; in particular a stale sign entry is never re-keyed onto a
+    stored sector.  No hypothesis on the sign table beyond the injective encoding of its sectors. -/
+theorem squeeze_value (fs : Sector → Sector) (fb : Blk R → Blk R) (fk : Key → Key) (fi : Nat → Nat)
+    (hI : ∀ b, I tSlice [b] = fb b) {h : Heap} {x : ObjId} {a : ArrObj} {bd : Dict} {pd : Option Dict}
+    (wx : WFArr h x a bd pd) (okx : BlocksOK h bd) {A : Arr R} (rx : Rep enc I d h.bufs (cont a bd pd) A)
+    (hf : A.fermi = pd.isSome) {Ss : List Sector} (hinj : InjOn enc Ss) (hA : ∀ e ∈ A.blocks, e.1 ∈ Ss)
+    (hAs : ∀ e ∈ A.blocks, fs e.1 ∈ Ss) (hAk : ∀ e ∈ A.blocks, fk (enc e.1) = enc (fs e.1))
+    (hAp : ∀ e ∈ A.phases, e.1 ∈ Ss) :
+    ∃ r c, ((Op.squeeze fk fi).run true h [x]).2 = [x] ∧ ((Op.squeeze fk fi).run false h [x]).2 = [r] ∧
+      content ((Op.squeeze fk fi).run true h [x]).1 x = some c ∧
+      content ((Op.squeeze fk fi).run false h [x]).1 r = some c ∧
+      Rep enc I d ((Op.squeeze fk fi).run true h [x]).1.bufs c (A.mapBlocks fs fb) ∧
+      Rep enc I d ((Op.squeeze fk fi).run false h [x]).1.bufs c (A.mapBlocks fs fb) ∧
+      c.indices = fi a.indices ∧ c.charge = a.charge ∧ c.oddpos = a.oddpos := by
+  obtain ⟨r, c, h1, h2, h3, h4, h5⟩ := inplace_same_value (Op.squeeze fk fi) rfl wx
+  obtain ⟨h', a', b', p', run', w', e'⟩ := script_refines (S.squeeze fk fi) 0 .done (env := [x]) (by simp)
+    (by simpa [envGet] using wx)
+  have hrun : ((Op.squeeze fk fi).run true h [x]).1 = h' := by
+    simp only [Op.run, Op.arity, Op.prog, viaCopy, if_true, List.take_succ_cons, List.take_zero]
+    rw [run']; rfl
+  have hc : c = cont a' b' p' := by
+    have := w'.content
+    simp only [envGet, List.getD_cons_zero] at this
+    rw [hrun, this] at h3
+    exact (Option.some.inj h3).symm
+  have rep0 := mapBlocks_rep enc I d fs fb fk tSlice hI rx okx hf hinj hA hAs hAk hAp
+  rw [squeeze_pure] at e'
+  have e1 := congrArg Prod.fst e'
+  have e2 := congrArg Prod.snd e'
+  simp only at e1 e2
+  have rep : Rep enc I d h'.bufs c (A.mapBlocks fs fb) := by
+    rw [hc, e1, e2]
+    exact ⟨rep0.blocks, rep0.phases⟩
+  have e3 := e1
+  rw [mapBlocks_pure] at e3
+  simp only [cont] at e3
+  refine ⟨r, c, h1, h2, h3, h4, by rw [hrun]; exact rep, by rw [← h5, hrun]; exact rep, ?_, ?_, ?_⟩
+  · rw [hc]; exact congrArg Content.indices e3
+  · rw [hc]; exact congrArg Content.charge e3
+  · rw [hc]; exact congrArg Content.oddpos e3
+
+/-- **`expand_dims`, in place and out of place, end to end on `Arr`** (as `squeeze_value`; the charge
+    becomes `fc a.charge`) -/
+theorem expand_dims_value (fs : Sector → Sector) (fb : Blk R → Blk R) (e : ExpandP)
+    (hI : ∀ b, I tSlice [b] = fb b) {h : Heap} {x : ObjId} {a : ArrObj} {bd : Dict} {pd : Option Dict}
+    (wx : WFArr h x a bd pd) (okx : BlocksOK h bd) {A : Arr R} (rx : Rep enc I d h.bufs (cont a bd pd) A)
+    (hf : A.fermi = pd.isSome) {Ss : List Sector} (hinj : InjOn enc Ss) (hA : ∀ e ∈ A.blocks, e.1 ∈ Ss)
+    (hAs : ∀ e ∈ A.blocks, fs e.1 ∈ Ss) (hAk : ∀ q ∈ A.blocks, e.fk (enc q.1) = enc (fs q.1))
+    (hAp : ∀ e ∈ A.phases, e.1 ∈ Ss) :
+    ∃ r c, ((Op.expandDims e).run true h [x]).2 = [x] ∧ ((Op.expandDims e).run false h [x]).2 = [r] ∧
+      content ((Op.expandDims e).run true h [x]).1 x = some c ∧
+      content ((Op.expandDims e).run false h [x]).1 r = some c ∧
+      Rep enc I d ((Op.expandDims e).run true h [x]).1.bufs c (A.mapBlocks fs fb) ∧
+      Rep enc I d ((Op.expandDims e).run false h [x]).1.bufs c (A.mapBlocks fs fb) ∧
+      c.indices = e.fi a.indices ∧ c.charge = e.fc a.charge ∧ c.oddpos = a.oddpos := by
+  obtain ⟨r, c, h1, h2, h3, h4, h5⟩ := inplace_same_value (Op.expandDims e) rfl wx
+  obtain ⟨h', a', b', p', run', w', e'⟩ := script_refines (S.expandDims e.fk e.fi e.fc) 0 .done (env := [x])
+    (by simp) (by simpa [envGet] using wx)
+  have hrun : ((Op.expandDims e).run true h [x]).1 = h' := by
+    simp only [Op.run, Op.arity, Op.prog, viaCopy, if_true, List.take_succ_cons, List.take_zero]
+    rw [run']; rfl
+  have hc : c = cont a' b' p' := by
+    have := w'.content
+    simp only [envGet, List.getD_cons_zero] at this
+    rw [hrun, this] at h3
+    exact (Option.some.inj h3).symm
+  have rep0 := mapBlocks_rep enc I d fs fb e.fk tSlice hI rx okx hf hinj hA hAs hAk hAp
+  rw [expandDims_pure] at e'
+  have e1 := congrArg Prod.fst e'
+  have e2 := congrArg Prod.snd e'
+  simp only at e1 e2
+  have rep : Rep enc I d h'.bufs c (A.mapBlocks fs fb) := by
+    rw [hc, e1, e2]
+    exact ⟨rep0.blocks, rep0.phases⟩
+  have e3 := e1
+  rw [mapBlocks_pure] at e3
+  simp only [cont] at e3
+  refine ⟨r, c, h1, h2, h3, h4, by rw [hrun]; exact rep, by rw [← h5, hrun]; exact rep, ?_, ?_, ?_⟩
+  · rw [hc]; exact congrArg Content.indices e3
+  · rw [hc]; exact congrArg Content.charge e3
+  · rw [hc]; exact congrArg Content.oddpos e3
+
+end mapvalue
+
 /-! ## non-vacuity -/
 
 /-- an encoding of the two sectors `[(0,0)]`, `[(1,0)]` as the keys 0, 1 -/
@@ -264,5 +391,32 @@ example {R : Type} (I : Nat → List (Blk R) → Blk R) (d : Blk R) :
 example : BlocksOK h0 [(0, 0), (1, 1)] ∧ (([(0, 0), (1, 1)] : Dict).map (·.1)).Nodup ∧
     (([([(1, 0)], -1)] : List (Sector × Int)).map (·.1)).Nodup := by
   refine ⟨by unfold BlocksOK DictOK; decide, by decide, by decide⟩
+
+-- `_map_blocks` / `squeeze`: a STALE sign entry (key 1, no block) is discarded, not re-keyed onto the
+-- stored sector 0 (`fk` maps every key to 0): before the library repair it flipped that block's sign
+def h1 : Heap :=
+  { objs := [.dict [(0, 0)], .dict [(1, -1)],
+             .arr { indices := 5, charge := 1, blocks := 0, phases := some 1, oddpos := 3 }],
+    bufs := [(0, [])] }
+
+example : (content ((Op.mapBlocks (fun _ => 0) tSlice).run true h1 [2]).1 2).map (·.phases) = some (some []) := by
+  decide
+example : (content ((Op.squeeze (fun _ => 0) id).run true h1 [2]).1 2).map (·.phases) = some (some []) ∧
+    ((Op.squeeze (fun _ => 0) id).run false h1 [2]).2 = [5] ∧
+    (content ((Op.squeeze (fun _ => 0) id).run false h1 [2]).1 5).map (·.phases) = some (some []) := by
+  decide
+-- … while the entry of a stored block is re-keyed with its block
+example : (content ((Op.mapBlocks (fun k => k + 7) tSlice).run true h0 [2]).1 2).map
+    (fun c => (c.blocks.map (·.1), c.phases)) = some ([7, 8], some [(8, -1)]) := by
+  decide
+
+-- the hypotheses of `map_blocks_value` / `squeeze_value` hold for `h1`'s array with a stale entry in
+-- the value model's sign table as well
+example {R : Type} (I : Nat → List (Blk R) → Blk R) (d : Blk R) :
+    Rep encEx I d h1.bufs (cont { indices := 5, charge := 1, blocks := 0, phases := some 1, oddpos := 3 }
+        [(0, 0)] (some [(1, -1)]))
+      { (default : Arr R) with fermi := true, blocks := [([(0, 0)], look I d h1.bufs 0)],
+                               phases := [([(1, 0)], -1)] } :=
+  ⟨rfl, rfl⟩
 
 end SymmModel.C14
